@@ -54,8 +54,12 @@ def valid(m):
 		return False
 	if m.get("nope"):
 		return m.get("soft") is None
-	if m.get("mod") not in MODS:
+	# a message whose modulation was never set carries the documented default (GMSK);
+	# an explicit None / unknown value is invalid
+	mod = m.get("mod", "GMSK")
+	if mod not in MODS:
 		return False
+	m = dict(m, mod = mod)
 	nsets = MODS[m["mod"]][2]
 	if not is_int(m.get("tsc_set")) or not 0 <= m["tsc_set"] < nsets:
 		return False
@@ -69,7 +73,7 @@ def valid(m):
 def mts_octet(m):
 	if m.get("nope"):
 		return 0x80
-	return ((MODS[m["mod"]][0] | m["tsc_set"]) << 3) | m["tsc"]
+	return ((MODS[m.get("mod", "GMSK")][0] | m["tsc_set"]) << 3) | m["tsc"]
 
 
 def encode(m, legacy = False):
